@@ -5,6 +5,7 @@ import (
 	"crypto/tls"
 	"errors"
 	"net"
+	"os"
 	"sync"
 	"sync/atomic"
 	"time"
@@ -139,6 +140,11 @@ func (s *tcpServer) handleConn(c net.Conn) {
 		c.SetReadDeadline(time.Now().Add(s.idleTimeout))
 		m, n, err := dnsutils.ReadMsgFromTCP(br)
 		if err != nil {
+			// A connection on which queries are still being handled is not
+			// idle. The client is waiting for the responses.
+			if n == 0 && concurrent.Load() > 0 && errors.Is(err, os.ErrDeadlineExceeded) {
+				continue
+			}
 			if n > 0 { // invalid msg
 				s.logger.Warn().
 					Stringer("local", c.LocalAddr()).
